@@ -87,6 +87,12 @@ impl WalBlobBuilder {
         Ok(Self { mmap, cur: 0 })
     }
 
+    /// Verification hook: a builder whose mapping starts at `size` bytes (exercises `grow`).
+    #[cfg(nomt_verif)]
+    pub fn verif_with_initial_size(size: usize) -> anyhow::Result<Self> {
+        Self::with_initial_size(size)
+    }
+
     pub fn write_clear(&mut self, bucket_index: u64) {
         unsafe {
             self.write_byte(WAL_ENTRY_TAG_CLEAR);
